@@ -59,6 +59,20 @@ type Leg struct {
 	ValueOK bool     `json:"value_ok"` // the receiving side got values equal to the ones passed
 	Got     string   `json:"got"`      // canonical text of what the receiving side got
 	Seen    bool     `json:"seen"`     // a frame was observed
+	NoModel bool     `json:"no_model"` // too large to be written as a correspondence case
+	Step    int      `json:"step"`     // sequences: index of the step (Record.Trace) the leg belongs to
+	InSeq   bool     `json:"in_seq"`   // sequences: the passage is a step of Record.Seq (compared there)
+}
+
+// SeqStep is one step of a sequence as the model sees it (GenSeq.v): op 0 update through
+// the helper, 1 set through the proxy, 2 signal, 3 get.  Bytes: the event payload observed
+// (0-2) or the payload of the getter's reply without its signature (3).
+type SeqStep struct {
+	Op    int    `json:"op"`
+	ID    uint32 `json:"id"`
+	Ty    string `json:"ty"`
+	Val   string `json:"val"`
+	Bytes string `json:"bytes"`
 }
 type Record struct {
 	Via   string `json:"via"` // "" main object through its proxy; "ctx" through WithContext; "obj" / "obj+ctx" an object returned by a method
@@ -68,6 +82,11 @@ type Record struct {
 	ID    uint32 `json:"id"`
 	Err   string `json:"err"`
 	Legs  []Leg  `json:"legs"`
+	// Note: "" for the one record per action of the first pass; otherwise what the record is an
+	// addition to it ("containers sized 4096", "sequence").
+	Note  string    `json:"note"`
+	Trace []string  `json:"trace"` // sequences: the steps in words, in the order they were made
+	Seq   []SeqStep `json:"seq"`   // sequences: the steps for the model (nil when a frame was missed)
 }
 
 type Driver struct {
@@ -82,7 +101,9 @@ type Driver struct {
 	tap     *tap
 	session bus.Session
 	objSeq  int
-	pending []target // objects returned by methods, still to be exercised
+	pending []target           // objects returned by methods, still to be exercised
+	size    int                // >= 0: containers of drawn values are sized (sized.go); -1: wg.GenVal
+	last    map[string]*wg.Val // property (key + instance) -> the value it was last given
 }
 
 // target: one object of an interface reached through one proxy.
@@ -145,7 +166,8 @@ func (d *Driver) newObject(name string, svc bus.Service) (interface{}, string) {
 
 func New() *Driver {
 	log.SetOutput(io.Discard)
-	return &Driver{helpers: map[string]interface{}{}, got: map[string][]interface{}{}, rets: map[string]*wg.Val{}, retObjs: map[string]reflect.Value{}}
+	return &Driver{helpers: map[string]interface{}{}, got: map[string][]interface{}{}, rets: map[string]*wg.Val{}, retObjs: map[string]reflect.Value{},
+		size: -1, last: map[string]*wg.Val{}}
 }
 
 // ---- called by the generated implementors ----
@@ -202,15 +224,27 @@ func (d *Driver) fatal(msg string) {
 	os.Exit(0)
 }
 
-// Run: argv = seed maxLen.
+// Run: argv = seed maxLen [sizes [steps]].  sizes: comma-separated container sizes for additional passes
+// ("" = none); steps: length of the sequence run against every object (0 = none).
 func (d *Driver) Run() {
 	d.out = json.NewEncoder(os.Stdout)
-	seed, maxLen := uint64(1), 3
+	seed, maxLen, steps := uint64(1), 3, 0
+	var sizes []int
 	if len(os.Args) > 1 {
 		seed, _ = strconv.ParseUint(os.Args[1], 10, 64)
 	}
 	if len(os.Args) > 2 {
 		maxLen, _ = strconv.Atoi(os.Args[2])
+	}
+	if len(os.Args) > 3 {
+		for _, f := range strings.Split(os.Args[3], ",") {
+			if n, err := strconv.Atoi(f); err == nil && n >= 0 {
+				sizes = append(sizes, n)
+			}
+		}
+	}
+	if len(os.Args) > 4 {
+		steps, _ = strconv.Atoi(os.Args[4])
 	}
 	d.rng = hx.NewRng(seed)
 	time.AfterFunc(40*time.Second, func() { d.fatal("driver deadline") })
@@ -252,6 +286,12 @@ func (d *Driver) Run() {
 		}
 		main := target{it: &d.ifaces[i], proxy: proxy, svc: svc, sid: svc.ServiceID()}
 		d.pass(main, maxLen, false)
+		// many operations on the one stub / proxy pair, whatever was called in between
+		d.sequence(main, maxLen, steps)
+		// containers at the sizes asked for, as arguments, results and payloads
+		for _, n := range sizes {
+			d.sizedPass(main, n)
+		}
 		// the same object through the proxy the generated WithContext returns
 		d.viaContext(main, maxLen)
 		// objects that methods of this interface returned: their own interface, directly
@@ -260,6 +300,7 @@ func (d *Driver) Run() {
 			t := d.pending[0]
 			d.pending = d.pending[1:]
 			d.pass(t, maxLen, true)
+			d.sequence(t, maxLen, (steps+1)/2)
 			d.viaContext(t, maxLen)
 		}
 	}
@@ -336,10 +377,13 @@ func leg(what string, kind int, tys []*wg.Ty, vals []*wg.Val, data []byte, seen 
 	}
 	var doc bytes.Buffer
 	l.ValueOK = len(got) == len(vals)
+	terms := 0
 	for i, v := range wire {
 		l.Tys = append(l.Tys, tys[i].Coq())
 		l.Sigs = append(l.Sigs, tys[i].Sig())
-		l.Vals = append(l.Vals, v.Coq())
+		term := CoqCompact(v)
+		terms += len(term)
+		l.Vals = append(l.Vals, term)
 		l.Canon += vals[i].Canon() + ";"
 		doc.Write(v.Enc())
 		if i < len(got) {
@@ -349,5 +393,47 @@ func leg(what string, kind int, tys []*wg.Ty, vals []*wg.Val, data []byte, seen 
 	}
 	l.Doc = hex.EncodeToString(doc.Bytes())
 	l.BytesOK = seen && bytes.Equal(doc.Bytes(), data)
+	// large passages: the record keeps what a reader needs (where the two sides differ), the
+	// correspondence case is written only when its text stays small
+	if terms+len(l.Bytes) > maxCaseText {
+		l.NoModel, l.Vals = true, nil
+	}
+	if len(l.Doc) > 4096 {
+		l.Doc = ""
+	}
+	l.Canon, l.Got = excerpt(l.Canon, l.Got)
+	if l.NoModel && len(l.Bytes) > 4096 {
+		l.Bytes = l.Bytes[:4096] + fmt.Sprintf("...(%d bytes)", len(data))
+	}
 	return l
+}
+
+// maxCaseText bounds the text of one correspondence case (Coq reads about 20k characters a second).
+const maxCaseText = 52000
+
+// excerpt shortens two long canonical texts to their beginning and the place where they differ.
+func excerpt(a, b string) (string, string) {
+	const keep = 600
+	if len(a) <= keep && len(b) <= keep {
+		return a, b
+	}
+	k := 0
+	for k < len(a) && k < len(b) && a[k] == b[k] {
+		k++
+	}
+	cut := func(s string) string {
+		if len(s) <= keep {
+			return s
+		}
+		out := s[:200] + fmt.Sprintf(" ...(%d characters)", len(s))
+		if k < len(s) && (k < len(a) || k < len(b)) && k >= 200 {
+			lo, hi := k-40, k+120
+			if hi > len(s) {
+				hi = len(s)
+			}
+			out += fmt.Sprintf(" ... differs at %d: %s", k, s[lo:hi])
+		}
+		return out
+	}
+	return cut(a), cut(b)
 }
